@@ -35,7 +35,9 @@
    Third part (C09_hook_...): combined arrays of a hook with SEVERAL bindings — kubernetes
    bindings (each with its own informer cache) and schedule / validating / mutating /
    conversion bindings whose names need not differ from the kubernetes bindings' names.
-   Model C09_Model.run_hook: the controllers' HandleEvent for every binding type, then
+   Model C09_Model.run_hook: the controllers' HandleEvent for every binding type (conversion
+   bindings with several rules each and several bindings per CRD: one link per (CRD, rule) holding
+   that rule's versions), then
    HookController.UpdateSnapshots over the WHOLE array (getIncludeSnapshotsFrom by binding type
    and name, SnapshotsFor, the per-call cache), then render_list.  Spec C09_Spec.P_hook: every
    item is the documented context of its own binding = (type, name).  Full statement
@@ -256,6 +258,32 @@ Theorem C09_snapshots_names_as_set : forall (f : bytes -> list item) l,
   snapshots_json (map (fun n => (n, f n)) l) = snapshots_json (map (fun n => (n, f n)) (canon_names l)).
 Proof. exact snapshots_json_canon. Qed.
 Print Assumptions C09_snapshots_names_as_set.
+
+(* a conversion request that was resolved to the rule from->to is answered with a Conversion
+   context of a binding of that CRD that declares this rule, carrying exactly fromVersion = from
+   and toVersion = to — whichever other rules that binding or other bindings declare, in
+   whichever order *)
+Theorem C09_hook_conversion_versions : forall hc crd from to o r review,
+  conv_link hc crd from to = Some (o, r) ->
+  In o (hk_other hc) /\ conv_match crd from to o = true
+  /\ jget k_fromVersion (JObj (map_v1 (ctx_of_conv o r review))) = Some (JStr from)
+  /\ jget k_toVersion (JObj (map_v1 (ctx_of_conv o r review))) = Some (JStr to).
+Proof. exact conv_versions. Qed.
+Print Assumptions C09_hook_conversion_versions.
+
+(* non-vacuity of the conversion part: a binding with two rules and a second binding of the same
+   CRD; the request for the first rule is rendered with that rule's versions, and the predicate
+   rejects the array that shows the binding's last rule instead *)
+Example C09_hook_conversion_hyp_met :
+  hook_wf WitHook.example_conv = true /\ T_hook WitHook.example_conv = false
+  /\ T_same_type_name WitHook.example_conv = false /\ T_admission_same_name WitHook.example_conv = false
+  /\ WitHook.example_conv_link <> None
+  /\ length (ho_items (run_hook WitHook.example_conv)) = 2%nat.
+Proof.
+  destruct WitHook.example_conv_ok as [H1 [H2 [H3 [H3' H4]]]].
+  split; [exact H1|]. split; [exact H2|]. split; [exact H3|]. split; [exact H3'|].
+  split; [exact WitHook.example_conv_link_some|now rewrite H4].
+Qed.
 
 (* non-vacuity: a kubernetes binding "pods" that includes nothing and a schedule binding "pods"
    that includes the snapshot of "cm" meet the hypotheses; in the array [Event pods, Schedule
